@@ -14,16 +14,38 @@ REPO = os.environ.get('KNEE_REPO', '/repo')
 SRC = os.path.join(REPO, 'src')
 JOBS = int(os.environ.get('VERIF_JOBS', '16'))
 
-ALLOWED_AXIOM_PREFIXES = (
-    # primitive floats / integers and their standard-library specification
-    'PrimFloat.', 'FloatAxioms.', 'Uint63.', 'PrimInt63.', 'Uint63Axioms.', 'FloatOps.', 'Sint63', 'PrimInt63',
-    # the real numbers of the standard library
-    'ClassicalDedekindReals.sig_forall_dec', 'ClassicalDedekindReals.sig_not_dec',
-    'FunctionalExtensionality.functional_extensionality_dep',
-    'Classical_Prop.classic', 'Rdefinitions.', 'Raxioms.',
-    'Eqdep.Eq_rect_eq.eq_rect_eq', 'ProofIrrelevance.proof_irrelevance', 'JMeq.JMeq_eq',
-    'ClassicalEpsilon.constructive_indefinite_description', 'PropExtensionality.propositional_extensionality',
-)
+# Axioms a theorem may depend on: only those the standard library itself declares.  Print Assumptions
+# prints shortest names, so the audit compares base names against the names declared (Primitive / Axiom /
+# Parameter / Register) in the standard library's own sources for primitive floats, primitive integers,
+# the real numbers and the classical-logic / extensionality files; the development itself may declare
+# none (source_hygiene greps for that), so a base-name match cannot be one of ours.
+_STDLIB = '/usr/lib/ocaml/coq/theories'
+_STDLIB_AXIOM_FILES = ['Floats/PrimFloat.v', 'Floats/FloatAxioms.v', 'Floats/FloatOps.v',
+                       'Numbers/Cyclic/Int63/PrimInt63.v', 'Numbers/Cyclic/Int63/Uint63.v', 'Numbers/Cyclic/Int63/Sint63.v',
+                       'Reals/ClassicalDedekindReals.v', 'Reals/Rdefinitions.v', 'Reals/Raxioms.v',
+                       'Logic/FunctionalExtensionality.v', 'Logic/Classical_Prop.v', 'Logic/Eqdep.v', 'Logic/ProofIrrelevance.v',
+                       'Logic/JMeq.v', 'Logic/ClassicalEpsilon.v', 'Logic/PropExtensionality.v', 'Logic/ClassicalFacts.v',
+                       'Logic/Epsilon.v', 'Logic/ChoiceFacts.v', 'Logic/IndefiniteDescription.v', 'Logic/Description.v']
+_ALLOWED = None
+
+
+def allowed_axioms():
+    global _ALLOWED
+    if _ALLOWED is None:
+        names = set()
+        for f in _STDLIB_AXIOM_FILES:
+            p = os.path.join(_STDLIB, f)
+            if os.path.exists(p):
+                txt = strip_comments(open(p).read())
+                names.update(re.findall(r'\b(?:Primitive|Axiom|Parameter)\s+([A-Za-z_][A-Za-z0-9_\']*)', txt))
+        _ALLOWED = names
+    return _ALLOWED
+
+
+def axiom_ok(name):
+    return name.split('.')[-1] in allowed_axioms()
+
+
 FORBIDDEN = re.compile(r'\b(Admitted|admit|Axiom|Axioms|Parameter|Parameters|Conjecture|Conjectures|Hypothesis|Hypotheses|Variable|Variables)\b|Unset\s+Guard|bypass_check|type-in-type|impredicative-set|Admit\s+Obligations|Unset\s+Universe\s+Checking|Unset\s+Positivity')
 
 
@@ -113,24 +135,50 @@ def coq_files():
     return sorted(out)
 
 
-def build(clean=False):
-    """Full .vo build of the development under flock (checks may run concurrently)."""
+def build(clean=False, targets=None):
+    """Full .vo build under flock (checks may run concurrently).  targets=None builds everything
+    (setup, thorough); a check builds the dependency closure of its own Props/Judge files."""
     lock = os.path.join(COQ, '.build.lock')
     files = ' '.join(coq_files())
-    cmd = ('cd %s && flock %s sh -c "%s (ls %s | cat > /dev/null) && '
+    tg = ' '.join(t[:-2] + '.vo' for t in targets) if targets else ''
+    cmd = ('cd %s && flock %s sh -c "%s '
            'coq_makefile -f _CoqProject %s -o Makefile.coq > /dev/null && '
-           'timeout 3000 make -f Makefile.coq -j%d 2>&1 | tail -40"'
+           'timeout 3000 make -f Makefile.coq -j%d %s 2>&1 | tail -40"'
            % (COQ, lock, 'make -f Makefile.coq clean >/dev/null 2>&1;' if clean and os.path.exists(os.path.join(COQ, 'Makefile.coq')) else '',
-              files, files, JOBS))
+              files, JOBS, tg))
     rc, out = sh(cmd, timeout=3600)
     ok = rc == 0 and 'Error' not in out and '***' not in out
     return ok, out
 
 
-def source_hygiene():
-    """no Admitted / Axiom / Parameter / unset checks anywhere in the development"""
+def dep_closure(targets):
+    """the .v files the given .v files depend on (from coq_makefile's dependency file)"""
+    deps = {}
+    p = os.path.join(COQ, '.Makefile.coq.d')
+    if os.path.exists(p):
+        for line in open(p).read().replace('\\\n', ' ').split('\n'):
+            if ':' not in line:
+                continue
+            lhs, rhs = line.split(':', 1)
+            outs = [x for x in lhs.split() if x.endswith('.vo')]
+            ins = [x[:-3] + '.v' for x in rhs.split() if x.endswith('.vo') and not x.startswith('/')]
+            for o in outs:
+                deps[o[:-3] + '.v'] = ins
+    seen = set()
+    todo = list(targets)
+    while todo:
+        t = todo.pop()
+        if t in seen:
+            continue
+        seen.add(t)
+        todo += deps.get(t, [])
+    return sorted(seen)
+
+
+def source_hygiene(files=None):
+    """no Admitted / Axiom / Parameter / unset checks anywhere in the given files (default: whole development)"""
     bad = []
-    for f in coq_files():
+    for f in (files if files is not None else coq_files()):
         txt = open(os.path.join(COQ, f)).read()
         # strip comments (nested)
         txt = strip_comments(txt)
@@ -207,7 +255,7 @@ def check_props_file(pid, workdir):
             res['failed'].append(t + ' (no Print Assumptions)')
             continue
         for a in res['axioms'][t]:
-            if not a.startswith(ALLOWED_AXIOM_PREFIXES):
+            if not axiom_ok(a):
                 res['failed'].append('%s (axiom %s)' % (t, a))
     return res
 
@@ -459,8 +507,10 @@ def run_check(prop, tier, seed, replay=None):
     known_lines = []
     try:
         # ---- 1. proof obligations
-        ok_build, build_log = build(clean=False)
-        hyg = source_hygiene()
+        mine = ['Props/%s.v' % pid, prop.judge_module.replace('.', '/') + '.v'] + list(getattr(prop, 'extra_coq', []))
+        whole = (tier == 'thorough') or bool(os.environ.get('VERIF_FULL_BUILD'))
+        ok_build, build_log = build(clean=False, targets=None if whole else mine)
+        hyg = source_hygiene(None if whole else dep_closure(mine))
         pr = check_props_file(pid, workdir)
         obligations = len(pr['theorems'])
         failed = list(pr['failed'])
